@@ -75,9 +75,11 @@ pub fn pythonic_index_isize<T>(xs: &[T], n: isize) -> NRes<usize> {
         return Ok(n as usize);
     }
 
-    let i2 = (n + (xs.len() as isize)) as usize;
-    if i2 < xs.len() {
-        return Ok(i2);
+    if n < 0 {
+        let i2 = (n + (xs.len() as isize)) as usize;
+        if i2 < xs.len() {
+            return Ok(i2);
+        }
     }
 
     Err(NErr::index_error(format!(
